@@ -8,12 +8,12 @@ export GOFLAGS=-mod=mod GOPROXY=off GOSUMDB=off GOTOOLCHAIN=local
 IDS="${*:-C01 C02 C03 C05 C07 C08 C09 C10 C11 C12 C13 C14 C15 C16 C17 C19 C20}"   # C04, C06, C18 need the overlay build, which go tool cover cannot read
 COV=$(mktemp -d /tmp/verif-cov.XXXX)
 OUT=$(mktemp -d /tmp/verif-cov-out.XXXX); cp known_findings.json $OUT/
-go build -cover -coverpkg=github.com/cockroachdb/apd/v3 -o bin/vcheck-cover ./cmd/vcheck || exit 2
+go build -cover -coverpkg=github.com/cockroachdb/apd/v3,verif/... -o bin/vcheck-cover ./cmd/vcheck || exit 2
 for id in $IDS; do
   GOCOVERDIR=$COV VERIF_DIR=$OUT VERIF_SRC=/repo ./bin/vcheck-cover $id --tier quick 2>&1 | tail -1
 done
 go tool covdata percent -i=$COV 2>/dev/null | tail -3
 go tool covdata textfmt -i=$COV -o $COV/cover.txt 2>/dev/null
-(cd /repo && go tool cover -func=$COV/cover.txt 2>/dev/null) | awk '$NF != "100.0%"' | sort -k3 -n | head -80 > coverage-report.txt
+grep -v '^verif/' $COV/cover.txt > $COV/apd.txt; (cd /repo && go tool cover -func=$COV/apd.txt 2>/dev/null) | awk '$NF != "100.0%"' | sort -k3 -n | head -80 > coverage-report.txt
 echo "functions of package apd below 100% statement coverage: $(grep -c . coverage-report.txt) (see coverage-report.txt)"
 rm -rf $COV $OUT
